@@ -70,6 +70,16 @@ private:
             m_initial_search_space_size = m_matrix_operator.cols() / 3;
             m_correction_size = m_matrix_operator.cols() / 3;
         }
+        // The search space must be able to hold the requested number of eigenvalues,
+        // and at least one correction vector is added in each iteration
+        if (m_initial_search_space_size < m_number_eigenvalues)
+        {
+            m_initial_search_space_size = m_number_eigenvalues;
+        }
+        if (m_correction_size < 1)
+        {
+            m_correction_size = 1;
+        }
     }
 
 public:
